@@ -472,7 +472,8 @@ pub fn run(tier: Tier) -> Report {
     let fs = fates();
     let bound = tier.pick(1, 2);
     let mut l2: Vec<Cfg> = vec![];
-    for t in tops.iter().filter(|t| t.len() >= 2) {
+    // thorough: double deviations are affordable for topologies of at most 4 nodes
+    for t in tops.iter().filter(|t| t.len() >= 2 && (tier == Tier::Quick || t.len() <= 4)) {
         let ids: Vec<[u8; 20]> = t.iter().map(|i| uni[*i]).collect();
         for (sid, ih) in [(far, prefix_id(0, bits, 0x11)), (prefix_id(2, bits, 0x99), prefix_id(5, bits, 0x33)), (far, ids[0])] {
             l2.push(Cfg { ids: ids.clone(), searcher_id: sid, info_hash: ih, contacts: vec![ids.len() - 1], read_only: true, port: Some(1234), announce: true, peer_sets: 1, name_searcher: false, v6: false, rng_seed: 1 + seed, search_at_ms: T_SEARCH, warmup: vec![] });
@@ -487,7 +488,7 @@ pub fn run(tier: Tier) -> Report {
             RunOutcome { outcome_hash: sim::trace_hash(&res, ""), wire_events: res.wire.len() as u64, violations: viol, out_of_range: oor, choices: res.choices }
         };
         // inner exploration runs sequentially here (the outer level is parallel)
-        explore::explore_seq(bound, 20_000, &run_one)
+        explore::explore_seq(bound, 6_000, &run_one)
     });
     let mut l2runs = 0;
     let mut completed = bound as i64;
